@@ -39,7 +39,7 @@ Section Simp.
   Variable ltD : D -> D -> bool.
   Variable dmax dzero : D.
 
-  Theorem simplify_subseq p e c r : simplify_gen D d2 ltD dmax dzero p e c = Ok r -> sublist r p.
+  Theorem simplify_subseq p e c r : simplify_gen pt D d2 ltD dmax dzero p e c = Ok r -> sublist r p.
   Proof.
     unfold simplify_gen. destruct (length p <? 3); intros H.
     - inversion H. apply sublist_refl.
@@ -129,7 +129,7 @@ Section Simp.
     end.
 
   Lemma simp_step_ok fl ds curr : inv fl ds curr ->
-    exists s, simp_step D d2 ltD p high closed eps fl ds curr = Ok s /\ step_post fl ds s.
+    exists s, simp_step pt D d2 ltD p high closed eps fl ds curr = Ok s /\ step_post fl ds s.
   Proof.
     intros [Hfl Hds Hc Hu]. unfold simp_step.
     destruct (rd_lt ds curr ltac:(lia)) as [dc Hdc]. rewrite Hdc. cbn [bind].
@@ -209,7 +209,7 @@ Section Simp.
   Lemma simp_loop_ok (R : list bool -> list D -> Prop) :
     (forall fl ds fl' ds' c', inv fl ds c' \/ True -> step_post fl ds (Continue fl' ds' c') -> R fl ds -> R fl' ds') ->
     forall fuel fl ds curr, inv fl ds curr -> R fl ds -> count_false fl < fuel ->
-    exists fl' ds', simp_loop D d2 ltD fuel p high closed eps fl ds curr = Ok fl' /\
+    exists fl' ds', simp_loop pt D d2 ltD fuel p high closed eps fl ds curr = Ok fl' /\
                     length fl' = S high /\ R fl' ds'.
   Proof.
     intros HR. induction fuel as [|fuel IH]; intros fl ds curr Hinv HRfl Hcnt; [lia|].
@@ -224,7 +224,7 @@ Section Simp.
 
   (* ---------------------------------------------------------------- initial distances *)
   Lemma simp_init_mid_ok : forall n i ds, length ds = S high -> 1 <= i -> i + n <= high ->
-    exists ds', simp_init_mid D d2 n i p ds = Ok ds' /\ length ds' = S high /\
+    exists ds', simp_init_mid pt D d2 n i p ds = Ok ds' /\ length ds' = S high /\
                 (forall m, m < i \/ i + n <= m -> nth_error ds' m = nth_error ds m).
   Proof.
     induction n as [|n IH]; intros i ds Hds Hi Hn; cbn [simp_init_mid].
@@ -241,7 +241,7 @@ Section Simp.
   Hypothesis Hhigh : 2 <= high.
 
   Lemma simp_init_ok :
-    exists ds, simp_init D d2 dmax dzero p closed = Ok ds /\ length ds = S high /\
+    exists ds, simp_init pt D d2 dmax dzero p closed = Ok ds /\ length ds = S high /\
                (closed = false -> nth_error ds 0 = Some dmax /\ nth_error ds high = Some dmax).
   Proof.
     unfold simp_init. rewrite Hp. replace (S high - 1) with high by lia.
@@ -272,7 +272,7 @@ Section Simp.
     (forall ds, length ds = S high ->
                 (closed = false -> nth_error ds 0 = Some dmax /\ nth_error ds high = Some dmax) ->
                 R (repeat false (S high)) ds) ->
-    exists fl ds, simp_flags D d2 ltD dmax dzero p eps closed = Ok fl /\ length fl = S high /\ R fl ds.
+    exists fl ds, simp_flags pt D d2 ltD dmax dzero p eps closed = Ok fl /\ length fl = S high /\ R fl ds.
   Proof.
     intros HR H0. unfold simp_flags.
     destruct simp_init_ok as (ds & Hi & Hl & Ho). rewrite Hi. cbn [bind]. rewrite Hp.
@@ -294,7 +294,7 @@ Section SimpThm.
   (* no out-of-bounds access, no fuel exhaustion: at most len iterations of the for(;;) loop, GetNext/GetPrior
      always find an unflagged index *)
   Theorem simplify_safe p e c :
-    exists r, simplify_gen D d2 ltD dmax dzero p e c = Ok r.
+    exists r, simplify_gen pt D d2 ltD dmax dzero p e c = Ok r.
   Proof.
     unfold simplify_gen. destruct (length p <? 3) eqn:E; [eauto|]. apply Nat.ltb_ge in E.
     destruct (simp_flags_ok D d2 ltD dmax dzero p (length p - 1) ltac:(lia) c e ltac:(lia)
@@ -336,7 +336,7 @@ Section SimpThm.
 
   Theorem simplify_open_keeps_ends p e :
     2 <= length p -> ltD e dmax = true ->
-    exists r, simplify_gen D d2 ltD dmax dzero p e false = Ok r /\ keeps_ends r p = true.
+    exists r, simplify_gen pt D d2 ltD dmax dzero p e false = Ok r /\ keeps_ends r p = true.
   Proof.
     intros Hlen Hmax. unfold simplify_gen. destruct (length p <? 3) eqn:E.
     - exists p. split; [reflexivity|]. destruct p as [|a t]; [cbn in Hlen; lia|].
